@@ -880,7 +880,7 @@ class TlsNextProtocolNameList(VectorEnumCodeString):
     def get_param(cls):
         return VectorParamEnumCodeString(
             item_class=TlsNextProtocolNameFactory,
-            min_byte_num=1, max_byte_num=2 ** 16 - 1
+            min_byte_num=0, max_byte_num=2 ** 16 - 1
         )
 
 
